@@ -39,17 +39,31 @@ def binop (op : BinOp) (a b : Int) (m : Mode := .strict) : Except Err Val :=
     else do let _ ← chk (a.tdiv b); chk (op.ceval a b)
   else chk (op.ceval a b)
 
+/-- a binary operator on two values: `+` on two `String`s concatenates; an arithmetic operator with one `String` operand is not
+    modelled (`String + int` would append the digits, everything else does not compile): `typeError` -/
+def binopV (op : BinOp) (x y : Val) (m : Mode := .strict) : Except Err Val :=
+  match x, y with
+  | .str s, .str t => if op = .add then .ok (.str (s ++ t)) else .error .typeError
+  | .str _, _ => .error .typeError
+  | _, .str _ => .error .typeError
+  | _, _ => binop op x.toInt y.toInt m
+
+/-- implicit conversion to the declared type at an assignment / initialisation.  `String x = <int>` uses the constructor
+    `String(int)` (`Val.text`); a `String` converted to `int`/`bool` does not compile (the model's value is meaningless; the
+    fragment never assigns across types) -/
 def conv (t : Ty) (v : Val) : Val :=
   match t with
   | .int => .int v.toInt
   | .bool => .bool v.truthy
+  | .string => .str v.text
 
 /-- static type of an expression (what the C compiler sees) -/
 def typeOf (te : TyEnv) : Expr → Ty
   | .int _ => .int
   | .bool _ => .bool
+  | .str _ => .string                    -- a literal is a `const char*`; it converts to `String` wherever the fragment uses it
   | .var x => (te.lookup x).getD .int
-  | .bin _ _ _ => .int
+  | .bin _ a b => if typeOf te a = .string ∨ typeOf te b = .string then .string else .int
   | .neg _ => .int
   | .cmp _ _ _ => .bool
   | .and _ _ => .bool
@@ -58,13 +72,15 @@ def typeOf (te : TyEnv) : Expr → Ty
   | .ite _ a b => if typeOf te a = typeOf te b then typeOf te a else .int
   | .abs _ => .int                       -- `(x)>0?(x):-(x)`: the negation is an `int`
   | .mm _ a b => if typeOf te a = typeOf te b then typeOf te a else .int
+  | .toStr _ => .string                  -- `String(x)`
 
 def eval (te : TyEnv) (s : Store) (e : Expr) (m : Mode := .strict) : Except Err Val :=
   match e with
   | .int n => .ok (.int n)
   | .bool b => .ok (.bool b)
+  | .str t => .ok (.str t)
   | .var x => match s.get x with | some v => .ok v | none => .error .nameError
-  | .bin op a b => do let x ← eval te s a m; let y ← eval te s b m; binop op x.toInt y.toInt m
+  | .bin op a b => do let x ← eval te s a m; let y ← eval te s b m; binopV op x y m
   | .neg a => do let x ← eval te s a m; chk (-x.toInt)
   | .cmp op a b => do let x ← eval te s a m; let y ← eval te s b m; pure (.bool (op.eval x.toInt y.toInt))
   | .and a b => do let x ← eval te s a m; if x.truthy then do let y ← eval te s b m; pure (.bool y.truthy) else pure (.bool false)
@@ -78,6 +94,8 @@ def eval (te : TyEnv) (s : Store) (e : Expr) (m : Mode := .strict) : Except Err 
   -- evaluated a second time; expressions of this language are pure, so the second evaluation yields the value of the first
   | .abs a => do let x ← eval te s a m; if x.toInt > 0 then pure (.int x.toInt) else chk (-x.toInt)
   | .mm k a b => do let x ← eval te s a m; let y ← eval te s b m; pure (conv (typeOf te (.mm k a b)) (k.cpick x y))
+  -- `String(x)`: the constructor for the static type of `x` (`Val.text`: decimal digits of an int, 1 / 0 of a bool, a copy of a String)
+  | .toStr a => do let x ← eval te s a m; pure (.str x.text)
 
 open Py (Flow St)
 
@@ -129,7 +147,7 @@ def exec (te : TyEnv) (fuel : Nat) (stmt : Stmt) (st : St) (m : Mode := .strict)
     | .aug x op e => do
       let cur ← eval te st.store (.var x) m
       let v ← eval te st.store e m
-      let r ← binop op cur.toInt v.toInt m
+      let r ← binopV op cur v m
       let s' ← assignTo te st.store x r
       pure { st with store := s' }
     | .tuple _ _ _ => .error .typeError          -- not a statement of the sketch
@@ -163,7 +181,8 @@ def exec (te : TyEnv) (fuel : Nat) (stmt : Stmt) (st : St) (m : Mode := .strict)
         | some v => st1.store.set i v
         | none => st1.store.filter (·.1 ≠ i)
       pure { st1 with store := restored }
-    | .write e => do let v ← eval te st.store e m; pure { st with trace := .write v.toInt :: st.trace }
+    -- `Serial.println(e)`: the overload for the static type of `e` prints `Val.text` (decimal digits / 1, 0 / the characters)
+    | .write e => do let v ← eval te st.store e m; pure { st with trace := .write v.text :: st.trace }
     | .sleep e => do
       let v ← eval te st.store e m
       if v.toInt < 0 then .error .negativeDelay else pure { st with trace := .delay v.toInt :: st.trace }
